@@ -142,6 +142,7 @@ class InternalEnforcer(CoreEnforcer):
 
     def _remove_policies(self, sec, ptype, rules):
         """RemovePolicies removes policy rules from the model."""
+        rules = list(rules)  # the caller may hand in the very list get_policy() returned
         rules_removed = self.model.remove_policies(sec, ptype, rules)
         if not rules_removed:
             return rules_removed
